@@ -407,6 +407,8 @@ class Circuit:
     def finalize(self) -> None:
         """A wrapper for _finalize()."""
         if not self._finalized:
+            # references by name in events and filters may create blocks ('_ctrl', '_not_NAME')
+            self._resolver.resolve()
             self._finalize()
             self._finalized = True
 
